@@ -404,6 +404,10 @@ def trace(rep, meta, sfx):
             if st.get("k") == "LetExpr" and from_get(st["init"]):
                 for (bid, nm) in hirq.pat_bindings(st["pat"]):
                     get_bound.add(bid)
+            if st.get("k") == "Match" and from_get(st["scrut"]):      # `match rules.get(ident) { Some(node) => .. }`
+                for arm in st["arms"]:
+                    for (bid, nm) in hirq.pat_bindings(arm["pat"]):
+                        get_bound.add(bid)
         lets_f = hirq.lets(fn["body"])
 
         def extra_guards(n):
